@@ -23,6 +23,7 @@
 from casadi import Opti, jacobian, dot, hessian, symvar, evalf, veccat, DM, vertcat, is_equal
 import casadi
 import numpy as np
+import copy
 from .casadi_helpers import get_meta, merge_meta, single_stacktrace, comparison_links, MX
 from .solution import OcpSolution
 from .freetime import FreeTime
@@ -183,7 +184,8 @@ class DirectMethod:
 
     def solver(self, solver, solver_options={}):
         self._solver = solver
-        self._solver_options = dict(solver_options)
+        # A private copy, nested dictionaries included: the caller may go on modifying the options it passed
+        self._solver_options = copy.deepcopy(dict(solver_options))
 
     def show_infeasibilities(self, *args):
         self.opti.debug.show_infeasibilities(*args)
